@@ -94,6 +94,11 @@ def banned_calls(tree: ast.AST) -> List[ast.AST]:
                 out.append(n)
         if isinstance(n, ast.Attribute) and norm(n) == "os.environ":
             out.append(n)
+        # containers that stamp the current time unless told otherwise
+        if isinstance(n, ast.Call) and norm(n.func) in ("gzip.compress", "gzip.GzipFile", "gzip.open", "GzipFile", "zipfile.ZipFile", "tarfile.open"):
+            mt = [k for k in n.keywords if k.arg == "mtime"]
+            if not (mt and isinstance(mt[0].value, ast.Constant)):
+                out.append(n)
     return out
 
 
